@@ -581,6 +581,9 @@ func (v *Verifier) callWrites(e *Enc, c *ssa.CallCommon, fr *frame) (keys []stri
 			}
 		}
 		if fn == nil {
+			if e != nil && e.contract != nil && e.contract.DynPure {
+				return nil, false, false
+			}
 			return nil, true, true
 		}
 	}
@@ -781,6 +784,8 @@ type Unit struct {
 	Inputs   []inputVar
 	Enc      *Enc
 	AutoObls []*Obligation
+	Prelude  string
+	Funs     map[string]bool
 }
 
 // verifyFunc generates the obligations of one function. con may be nil
@@ -847,7 +852,25 @@ func (v *Verifier) verifyFunc(fn *ssa.Function, con *Contract) *Unit {
 	}
 }
 
+// resetTables makes the SMT prelude (sorts, tags, declared symbols, spec
+// function definitions) depend only on the unit being encoded, so that the
+// query text of a unit is the same whatever else is verified in the run.
+func (v *Verifier) resetTables() {
+	v.u = newUniverse()
+	v.funDecls = map[string]string{}
+	v.funOrder = nil
+	v.funcRefs = map[string]bool{}
+	v.globalRefs = map[string]bool{}
+	v.refNums = map[string]int{}
+	v.implFuns = map[string]types.Type{}
+	v.specDefs = nil
+	v.specDone = map[string]bool{}
+	v.opaqueDefs = map[string]*opaqueDef{}
+	v.scratch = nil
+}
+
 func (v *Verifier) verifyFuncOnce(fn *ssa.Function, con *Contract) (unit *Unit) {
+	v.resetTables()
 	unit = &Unit{Fn: fn, Contract: con}
 	q := newQuery(v.u)
 	unit.Q = q
@@ -862,6 +885,14 @@ func (v *Verifier) verifyFuncOnce(fn *ssa.Function, con *Contract) (unit *Unit) 
 		}
 		unit.Obls = e.obls
 		unit.AutoObls = e.autoObls
+		unit.Prelude = v.prelude()
+		unit.Funs = map[string]bool{}
+		for name := range v.funDecls {
+			unit.Funs[name] = true
+		}
+		for name := range v.opaqueDefs {
+			unit.Funs["op_"+name] = true
+		}
 		unit.Notes = q.notes
 		unit.Inputs = e.inputs
 	}()
@@ -1105,14 +1136,11 @@ func (v *Verifier) writeQueryMode(u *Unit, o *Obligation, dir string, logic stri
 	var keep map[int]bool
 	if mode == "focused" {
 		funs := map[string]bool{}
-		for name := range v.funDecls {
+		for name := range u.Funs {
 			if strings.HasPrefix(name, "fa_") || strings.HasPrefix(name, "inv_fa_") || name == "broot" {
 				continue
 			}
 			funs[name] = true
-		}
-		for name := range v.opaqueDefs {
-			funs["op_"+name] = true
 		}
 		keep = u.Q.focusKeep(o, funs)
 	}
@@ -1121,7 +1149,11 @@ func (v *Verifier) writeQueryMode(u *Unit, o *Obligation, dir string, logic stri
 	if logic != "" {
 		b.WriteString("(set-logic " + logic + ")\n")
 	}
-	b.WriteString(v.prelude())
+	if u.Prelude != "" {
+		b.WriteString(u.Prelude)
+	} else {
+		b.WriteString(v.prelude())
+	}
 	for i, d := range u.Q.decls[:o.NDecls] {
 		if light || (mode == "focused" && !keep[i]) {
 			if name, ok := u.Q.quantDefs[i]; ok {
@@ -1138,7 +1170,11 @@ func (v *Verifier) writeQueryMode(u *Unit, o *Obligation, dir string, logic stri
 	}
 	b.WriteString("(check-sat)\n")
 	if u.Enc != nil && u.Fn != nil && o.Expect != "sat" {
-		if mts := v.replayTerms(u, o); len(mts) > 0 {
+		mts := o.replayTerms
+		if !o.replayDone {
+			mts = v.replayTerms(u, o)
+		}
+		if len(mts) > 0 {
 			b.WriteString("(get-value (")
 			for _, mt := range mts {
 				b.WriteString(mt.Term + " ")
